@@ -425,6 +425,10 @@ def evaluate_arithmetic(op, lval, rval):
     except OverflowError:
         # a number or a date beyond what can be represented
         return error.NUM
+    except (TypeError, ValueError):
+        # operands the operator cannot combine (a date and a complex number, a date and a NaN): an
+        # error value the formula can trap, like every other operator failure
+        return error.VALUE
 
 
 def evaluate_logic(op, lval, rval):
